@@ -19,7 +19,7 @@ import (
 
 func c15Body() func(h []dsim.Rec) {
 	dsim.MuteFailures()
-	switch dsim.Choose(8) {
+	switch dsim.Choose(10) {
 	case 0:
 		c10Body()
 	case 1:
@@ -34,11 +34,51 @@ func c15Body() func(h []dsim.Rec) {
 		c16Body()
 	case 6:
 		c08Chain()
+	case 8, 9:
+		c15CloseWhileOpening()
 	case 7:
 		fanoutRun(fanOpt{rejected: true, streamReq: true, check: func(*env, []*link, []*link, [][]fanItem) {}})
 	}
 	dsim.Record("race-workload", "", nil)
 	return nil
+}
+
+// c15CloseWhileOpening: Close lands a drawn number of scheduling steps after Initialize, while
+// providers are handing their first channels to the node loop and peers are connecting.
+func c15CloseWhileOpening() {
+	cfg := genNodeCfg()
+	cfg.hbPeriod = 100 * time.Millisecond
+	cfg.srEnable = dsim.Choose(2) == 1
+	e := newEnv(cfg)
+	dsim.SetDate(time.Date(2026, 6, 1, 0, 0, 0, 0, time.UTC))
+	n := 1 + dsim.Choose(3)
+	for i := 0; i < n; i++ {
+		e.addEndpoint(dsim.Pick(epCustom, epTCPServer, epTCPClient, epSerial, epUDPClient))
+	}
+	d := &driverSet{e: e}
+	cons := &consumer{e: e}
+	e.cons = cons
+	e.peerAPHeartbeats = cfg.srEnable
+	e.drivePeers(d, false, false, 3)
+	if err := e.startNode(); err != nil {
+		return
+	}
+	if dsim.Choose(2) == 0 {
+		dsim.Go("consumer", cons.run)
+	}
+	if dsim.Choose(2) == 0 {
+		w := &writer{e: e, id: 1}
+		dsim.Go("writer", func() {
+			for i := 0; i < 5; i++ {
+				w.writeOne(opMsgAll, nil, "", true)
+			}
+		})
+	}
+	k := dsim.Choose(60)
+	for i := 0; i < k; i++ {
+		dsim.Yield("close-delay")
+	}
+	e.node.Close()
 }
 
 func init() {
